@@ -55,6 +55,9 @@ REF = ("raw", 1, None)
 SEQ = [("boost", 1, None), ("thread", 1, None)]
 PAR = [(f, n, s) for f in ("raw", "boost") for n in (2, 4, 16) for s in ("futex", "posix", "busy_wait") if not (s == "busy_wait" and n == 16)]
 PAR += [("thread", n, None) for n in (2, 4, 16)]
+# directed cases whose (known) misbehaviour depends on the timing of the worker threads, and where it shows most often
+HOT = {"d:same-date-killtime-joiners", "d:same-round-returns-with-comms-in-flight"}
+HOT_CFGS = [("thread", 4, None), ("boost", 16, "futex")]
 
 
 def flags_of(cfg):
@@ -195,50 +198,50 @@ def run(ctx):
     scs = list(directed)
     for i in range(n):
         scs.append(("g%d" % i, prog.generate(ctx.sub_rng("sc", i))))
-    by_tag = dict(scs)
     npar = 6 if ctx.tier == "quick" else len(PAR)
     reps = 1 if ctx.tier == "quick" else 2
-    # which scenarios run under which configuration
-    assign = {REF: list(scs)}
-    for c in SEQ:
-        assign[c] = list(scs)
-    for c in PAR:
-        assign[c] = []
+    # which scenario runs under which configuration, how many times
+    todo = {}                                   # cfg -> [(tag, sc)] (a scenario may appear several times)
     for i, (tag, sc) in enumerate(scs):
+        todo.setdefault(REF, []).append((tag, sc))
+        for c in SEQ:
+            todo.setdefault(c, []).append((tag, sc))
         if tag.startswith("d:"):
-            mine = PAR                         # the directed cases see every configuration
+            mine = list(PAR)                    # the directed cases see every configuration ...
+            if tag in HOT:                      # ... and the timing-dependent known findings get enough chances to show
+                mine += [c for c in HOT_CFGS for _ in range(4)]
         else:
-            mine = [PAR[(i * 5 + j * 7) % len(PAR)] for j in range(npar)]
-            mine = list(dict.fromkeys(mine))
+            mine = list(dict.fromkeys(PAR[(i * 5 + j * 7) % len(PAR)] for j in range(npar)))
         for c in mine:
-            assign[c].append((tag, sc))
+            todo.setdefault(c, []).extend([(tag, sc)] * (reps if c[1] != 1 else 1))
     jobs = []
     chunk = 6
-    for c, lst in assign.items():
-        rr = reps if c[1] != 1 else 1
-        for rep in range(rr + (2 if c[1] != 1 else 0)):
-            sub = lst if rep < rr else [x for x in lst if x[0].startswith("d:")]     # directed cases: two more repetitions
-            for k in range(0, len(sub), chunk):
-                jobs.append((c, rep, sub[k:k + chunk]))
+    for c, lst in todo.items():
+        for k in range(0, len(lst), chunk):
+            part = lst[k:k + chunk]
+            # a scenario repeated inside one chunk needs distinct tags for the batch protocol
+            jobs.append((c, k, [("%s#%d" % (tag, k + x), sc) for x, (tag, sc) in enumerate(part)]))
 
     def work(job):
-        c, rep, part = job
-        return c, rep, part, run_cfg("hooks", c, part, budget)
+        c, k, part = job
+        return c, part, run_cfg("hooks", c, part, budget)
 
     outs = ctx.pmap(work, jobs)
     ref = {}
-    for c, rep, part, res in outs:
+    for c, part, res in outs:
         if c == REF:
-            ref.update(res)
+            for xtag, _sc in part:
+                ref[xtag.split("#")[0]] = res[xtag]
     compared = {}
-    for c, rep, part, res in outs:
+    for c, part, res in outs:
         if c == REF:
             continue
-        for tag, sc in part:
+        for xtag, sc in part:
+            tag = xtag.split("#")[0]
             ctx.evaluation()
-            ok = compare(ctx, c, tag, sc, ref[tag], res[tag], selftest)
+            compare(ctx, c, tag, sc, ref[tag], res[xtag], selftest)
             d = compared.setdefault(tag, {"seq": 0, "par": 0})
-            if not (ref[tag]["watchdog"] or res[tag]["watchdog"]):
+            if not (ref[tag]["watchdog"] or res[xtag]["watchdog"]):
                 d["seq" if c[1] == 1 else "par"] += 1
     for tag, sc in scs:
         r = ref[tag]
